@@ -352,3 +352,39 @@ REG.add(Contract(
                               A('i-lo', 'old(text.i) <= text.i'), A('i-hi', 'text.i <= len(text.Q)'),
                               A('skipped', IGN('old(text.i)', 'text.i'))],
                    decreases='len(text.Q) - text.i')}))
+
+# ---------------------------------------------------------------------- tokenize: the token stream partitions the characters
+END = lambda t: '(%s.position + len(%s.text))' % (t, t)
+_TOKOK = ('len(%(t)s.text) > 0 and %(t)s.cat in TC and 0 <= %(t)s.position and ' + END('%(t)s') + ' <= len(text.Q) and '
+          '%(t)s.text == jointext(text.Q[%(t)s.position:' + END('%(t)s') + '])')
+_LAST = '_out[len(_out) - 1]'
+REG.add(Contract(
+    'tokens.tokenize', types={'text': 'Buffer'}, result='seq[tok]', generator=True,
+    requires=[A('inv', 'inv(text)'), WFC, A('fresh-buffer', 'text.i == 0')],
+    modifies=['text.i', 'text.m'], props=['C19', 'C06', 'C13'],
+    ensures=[
+        P(['C19', 'C13'], 'tokens-are-nonempty-slices-at-their-offsets',
+          'forall(k, 0, len(result), %s)' % (_TOKOK % {'t': 'result[k]'})),
+        P(['C19'], 'tokens-in-order-gaps-ignorable',
+          'forall(k, 0, len(result) - 1, %s <= result[k + 1].position and %s)'
+          % (END('result[k]'), IGN(END('result[k]'), 'result[k + 1].position'))),
+        P(['C19'], 'head-gap-ignorable', 'len(result) > 0 ==> ' + IGN('0', 'result[0].position')),
+        P(['C19'], 'tail-gap-ignorable', 'len(result) > 0 ==> ' + IGN(END('result[len(result) - 1]'), 'len(text.Q)')),
+        P(['C19'], 'no-token-only-if-all-ignorable', 'len(result) == 0 ==> ' + IGN('0', 'len(text.Q)')),
+        A('consumed', 'text.i == len(text.Q)')],
+    loops={0: Loop(invariant=[
+        A('inv', 'inv(text)'), A('cursor-in-range', 'text.i <= len(text.Q)'),
+        A('yielded-ok', 'forall(k, 0, len(_out), %s)' % (_TOKOK % {'t': '_out[k]'})),
+        A('yielded-ordered', 'forall(k, 0, len(_out) - 1, %s <= _out[k + 1].position and %s)'
+          % (END('_out[k]'), IGN(END('_out[k]'), '_out[k + 1].position'))),
+        A('pending-ok', 'current_token is not None ==> %s and %s == text.i'
+          % (_TOKOK % {'t': 'current_token'}, END('current_token'))),
+        A('pending-after-last', 'current_token is not None and len(_out) > 0 ==> %s <= current_token.position and %s'
+          % (END(_LAST), IGN(END(_LAST), 'current_token.position'))),
+        A('pending-first', 'current_token is not None and len(_out) == 0 ==> ' + IGN('0', 'current_token.position')),
+        A('head-gap', 'len(_out) > 0 ==> ' + IGN('0', '_out[0].position')),
+        A('done-tail', 'current_token is None and len(_out) > 0 ==> text.i == len(text.Q) and '
+          + IGN(END(_LAST), 'len(text.Q)')),
+        A('done-empty', 'current_token is None and len(_out) == 0 ==> text.i == len(text.Q) and '
+          + IGN('0', 'len(text.Q)'))],
+        decreases='len(text.Q) - text.i + (1 if current_token is not None else 0)')}))
